@@ -13,6 +13,7 @@ struct FR : public FileReader {
   Status ReadFile(const std::string& path, std::string* contents, std::string* err) override {
     if (path == "build.ninja") { *contents = g_main; return Okay; }
     if (path == "inc.ninja" || path == "sub/sub.ninja") { *contents = g_inc; return Okay; }
+    if (path == "pre.ninja") { *contents = "x = px\nbuild po: r pi\n"; return Okay; }
     *err = "No such file or directory"; return NotFound;
   }
 };
@@ -29,6 +30,7 @@ extern "C" int harness_main() {
   int inc = verif_choice("include_kind", 3);          // 0 none, 1 include, 2 subninja
   bool has_ix = inc && verif_bool("included_x"); bool has_late = verif_bool("late_x");
   bool file_desc = verif_bool("file_level_description");
+  bool pre_sub = verif_bool("earlier_subninja");        // an unrelated subninja before the build statements and the include
   bool crlf = verif_bool("crlf"); bool cont = verif_bool("continuation_in_command");
   const char* nl = crlf ? "\r\n" : "\n";
   std::string m;
@@ -40,6 +42,7 @@ extern "C" int harness_main() {
   m += "  description = d $x"; m += nl;
   if (has_y) { m += "y = $x.y"; m += nl; }
   if (redefine) { m += "x = fx2"; m += nl; }
+  if (pre_sub) { m += "subninja pre.ninja"; m += nl; }
   m += "build o: r i | imp $"; m += nl; m += "    || oo |@ v"; m += nl;
   if (has_bx) { m += "  x = bx"; m += nl; }
   if (has_z) { m += "  z = $x!"; m += nl; }
@@ -67,6 +70,7 @@ extern "C" int harness_main() {
   VERIF_ASSERT(o->EvaluateCommand() == "c " + x_o + " " + y + " i o " + z, "C12: command of a build with its own bindings follows the documented expansion and lookup order");
   VERIF_ASSERT(o2->EvaluateCommand() == "c " + x_final + " " + y + " i2 o2 ", "C12: command of a build without bindings sees the file-level values");
   if (io) VERIF_ASSERT(io->EvaluateCommand() == "c " + x_io + " " + y + " ii io ", "C12: include shares the including file's scope, subninja opens a child scope that sees the parent");
+  if (pre_sub) { Edge* po = edge_for(&state, "po"); VERIF_ASSERT(po && po->EvaluateCommand() == "c px " + y + " pi po ", "C12: a subninja file sees its own binding and the parent's, and leaves the parent's scope alone"); verif_reach("two-nested-files"); }
   // rule-level bindings come before file-level ones
   if (has_bx || has_z) VERIF_ASSERT(o->GetBinding("description") == "d " + x_o, "C12: description of a build with its own bindings comes from the rule");
   else VERIF_ASSERT(o->GetBinding("description") == "d " + x_o, "C12: a rule-level binding takes precedence over a file-level variable of the same name");
